@@ -290,6 +290,24 @@ fn main() {
         }
     }
     run.bounds.insert("white_space_phase".into(), json!(format!("{} patterns over {PATTERN_ALPHA:?} with at least one placeholder, X and Y instantiated with every ordered pair of the 25 White_Space characters", patterns.len())));
+    // long phase: lengths around the powers of two a size threshold would sit at; words of repeated
+    // symbols separated by single, double and mixed whitespace, with a leading / trailing run
+    {
+        let lens = tu_verif::enumerate::threshold_lengths(run.pick(10, 12));
+        let pats: [&[&str]; 5] = [&["a"], &["a", " "], &["ä", "a", " ", " "], &["a", "\t", "\u{a0}", "e\u{301}"], &[" ", "a", "a", "a"]];
+        run.bounds.insert("long_phase".into(), json!(format!("lengths {lens:?} (in symbols) x 5 repeated patterns x use_graphemes")));
+        for (k, n) in lens.iter().enumerate() {
+            if !run.unit(units + (patterns.len() + k) as u64) {
+                continue;
+            }
+            for pat in pats {
+                let text = tu_verif::enumerate::repeat_symbols(pat, *n);
+                for g in [false, true] {
+                    check(&mut run, &text, g);
+                }
+            }
+        }
+    }
     for (j, pat) in patterns.iter().enumerate() {
         if !run.unit(units + j as u64) {
             continue;
